@@ -1791,10 +1791,11 @@ def schedule_catalogue(seed):
   add('neg', 'count', f'(-({T} - 9))', lambda s: -(s - 9))
   add('neg', 'count', f'(-(-{T}))', lambda s: s)
   # (`**` of schedules is math.pow, a float: only used below floor()/ceil())
-  add('pow', 'count', f'(2 ** ({T} % 3)).floor()', lambda s: fl(math.pow(2, s % 3)))
-  add('pow', 'count', f'(({T} % 4) ** 2).ceil()', lambda s: ce(math.pow(s % 4, 2)))
-  add('maths', 'count', f'scalars.sqrt({T}).floor()', lambda s: fl(math.sqrt(s)))
-  add('maths', 'count', f'scalars.log({T} + 2, 2).ceil()', lambda s: ce(math.log(s + 2, 2)))
+  # (families are named after the outermost operation)
+  add('floor', 'count', f'(2 ** ({T} % 3)).floor()', lambda s: fl(math.pow(2, s % 3)))
+  add('ceil', 'count', f'(({T} % 4) ** 2).ceil()', lambda s: ce(math.pow(s % 4, 2)))
+  add('floor', 'count', f'scalars.sqrt({T}).floor()', lambda s: fl(math.sqrt(s)))
+  add('ceil', 'count', f'scalars.log({T} + 2, 2).ceil()', lambda s: ce(math.log(s + 2, 2)))
   add('stepwise', 'count', f'scalars.StepWise([(2, 1), (3, {T} + 2), (5, 4)])',
       _stepwise_ref([(2, lambda p: 1), (3, lambda p: p + 2), (5, lambda p: 4)]), stateful=True)
   add('stepwise', 'count',
@@ -1858,8 +1859,8 @@ def schedule_slots(seed):
   pr = lambda v, size: _is_prop(v)
   slots = [
       ('selectors.First.n', 'selectors.First({n})', n_ok, 'selector:capped'),
-      ('selectors.Last.n', 'selectors.Last({n})', n_ok, 'selector:capped'),
       ('selectors.Top.n', 'selectors.Top({n})', n_ok, 'selector:capped'),
+      ('selectors.Last.n', 'selectors.Last({n})', n_ok, 'selector:capped'),
       ('selectors.Bottom.n', 'selectors.Bottom({n})', n_ok, 'selector:capped'),
       ('selectors.Top.n', 'selectors.Top({n}, key=base.get_generation_id, cluster=True)', n_ok, 'selector:none'),
       ('selectors.Random.n', f'selectors.Random({{n}}, seed={s})', n_ok, 'selector:capped'),
@@ -1879,8 +1880,8 @@ def schedule_slots(seed):
       ('recombinators.KPoint.k', f'recombinators.KPoint({{n}}, seed={s})', k1, 'dna:2'),
       ('where.Any.k', f'recombinators.Uniform(where=where.Any(k={{n}}, seed={s}), seed={s})', k0, 'dna:2'),
       ('where.Any.k', f'recombinators.Order(where=where.Any(k={{n}}, seed={s}), seed={s})', k0, 'dna:2'),
-      ('Power.k', f'(mutators.Uniform(seed={s}) ** {{n}})', k0, 'dna:3'),
-      ('Repeat.k', f'(mutators.Uniform(seed={s}) * {{n}})', k0, 'dna:3'),
+      ('Power.k', f'(mutators.Uniform(seed={s}) ** {{n}})', k0, 'dna:2'),
+      ('Repeat.k', f'(mutators.Uniform(seed={s}) * {{n}})', k0, 'dna:2'),
       ('UntilChange.max_attempts', f'mutators.Uniform(where=lambda d: False, seed={s}).until_change({{n}})', k1, 'dna:1'),
       ('pipeline', f'selectors.Random({{n}}, seed={s}) >> recombinators.Sample({u}, seed={s}) >> mutators.Uniform(seed={s})',
        lambda v, size: _is_count(v, 1) or (_is_prop(v) and v > 0.0), 'dna:4'),
@@ -1918,6 +1919,12 @@ def schedule_slots(seed):
   for cname, tmpl in contexts:
     slots.append((f'step-reaches/{cname}', tmpl, n_ok, 'list'))
   return slots
+
+
+def sched_pop(name, n, seed):
+  """The population of n DNAs (fitness, generation ids) drv_schedules uses."""
+  r = rng(seed, f'c14-sched/{name}/{n}')
+  return with_fitness([pg.random_dna(space(name), r) for _ in range(n)], r)
 
 
 def run_op(op, pop, step):
@@ -2006,22 +2013,16 @@ def drv_schedules(tier, seed):
       'operator, reproduction and population_update of an Evolution loop) on populations of 5/8 DNAs. '
       'Reference: python functions were compared with literal values at every slot, all other schedules '
       'with the python function returning the denoted values (same operator, called at steps 0, 1, 2, ...)')
-  r = rng(seed, 'c14-sched')
-  flat = space('flat')
-  sel_pops = {}
-  for size in (5, 8):
-    sel_pops[size] = with_fitness([pg.random_dna(flat, r) for _ in range(size)], r)
+  sel_pops = {size: sched_pop('flat', size, seed) for size in (5, 8)}
   dna_spaces = ['flat', 'perm', 'multi-DS', 'floats']
-  dna_pops = {name: with_fitness(parents_of(name, r, 4), r) for name in dna_spaces}
-  psrcs = {}
+  dna_pops = {name: sched_pop(name, 4, seed) for name in dna_spaces}
 
   def pop_source(name, pop):
-    k = (name, id(pop[0]) if pop else 0, len(pop) if pop is not None else -1)
-    if k not in psrcs:
-      psrcs[k] = (pop_src(name, pop, fitness=True) +
-                  'for i, d in enumerate(pop): base.set_generation_id(d, i % 3)\n'
-                  if pop is not None else spec_src(name))
-    return psrcs[k]
+    if pop is None:
+      return f'S = space({name!r})\n'
+    full = 4 if pop[0] is dna_pops[name][0] else len(pop)
+    return (f'S = space({name!r})\npop = sched_pop({name!r}, {full}, {seed})'
+            + (f'[:{len(pop)}]' if len(pop) != full else '') + '\n')
 
   def case(cid, key, ok, msg='', wit=''):
     if ok:
@@ -2032,10 +2033,17 @@ def drv_schedules(tier, seed):
   first = {}      # per (family, kind): the first schedule
   for sc in cat:
     first.setdefault((sc['family'], sc['kind']), sc['src'])
-  probes = {first[k] for k in (('step', 'count'), ('floor', 'count'), ('ceil', 'count'), ('floordiv', 'count'),
-                               ('stepwise', 'count'), ('div', 'proportion'), ('linear', 'proportion'),
-                               ('stepwise', 'proportion'))}
+  # Probe schedules for the expensive slot groups (quick tier).
+  probe_groups = dict(
+      context=[('step', 'count'), ('floor', 'count'), ('stepwise', 'count'), ('div', 'proportion'),
+               ('stepwise', 'proportion'), ('python-lambda', 'count')],
+      dna=[('step', 'count'), ('floor', 'count'), ('ceil', 'count'), ('stepwise', 'count'),
+           ('python-lambda', 'count')],
+      evolution=[('add', 'count'), ('floor', 'count'), ('ceil', 'count'), ('floordiv', 'count'),
+                 ('div', 'proportion'), ('linear', 'proportion')])
+  probes = {g: {first[k] for k in ks} for g, ks in probe_groups.items()}
   evo_done = set()
+  literal_runs = {}
 
   for ci, sc in enumerate(cat):
     fam, kind, ssrc = sc['family'], sc['kind'], sc['src']
@@ -2043,7 +2051,7 @@ def drv_schedules(tier, seed):
     is_random = kind.startswith('random')
     anchor = fam == 'python-lambda'
     first_of_family = first[(fam, kind)] == ssrc
-    is_probe = ssrc in probes or anchor
+    is_probe = any(ssrc in v for v in probes.values())
     # What the schedule itself yields (only used to name a failure: a wrong
     # value / type reaching the operators is filed under the schedule family,
     # a correct value mishandled by an operator under the parameter slot).
@@ -2059,23 +2067,56 @@ def drv_schedules(tier, seed):
     else:
       refs = [sc['ref'](s) for s in range(len(steps) if sc['stateful'] else 24)]
       sched_ok = all(_value_ok(v, x) for v, x in zip(vals, refs))
-      table = '(lambda step: %r[step])' % (dict(enumerate(refs)),)
+      table = '(lambda step: %r[step])' % (refs[:SCHED_STEPS + 2],)
+
+    # Steps need not start at 0 nor be consecutive (an Evolution calls its
+    # reproduction with the number of proposals so far, which starts at the
+    # size of the initial population and grows by the number of children).
+    if not is_random:
+      slot, tmpl = slots[0][:2]
+      size = (5, 8)[ci % 2]
+      pop = sel_pops[size]
+      a_src = tmpl.format(n=ssrc)
+      a_op = outcome(make, a_src)
+      called = []
+      for s in (4, len(steps) - 1):
+        called.append(s)
+        if not slots[0][2](refs[s], size):
+          continue
+        b_src = tmpl.format(n=repr(refs[s]))
+        ra = run_op(a_op[1], pop, s) if a_op[0] == 'ok' else ('exc', a_op[1].__name__, '')
+        rb = run_op(b_src, pop, s)
+        same = same_run(ra, rb)
+        if sched_ok:
+          the_id = ('schedule/stepwise.first-step-not-0-or-steps-skipped' if sc['stateful'] and not same
+                    else f'scheduled.{slot}.same-as-denoted-value/steps-skipped')
+        else:
+          the_id = f'schedule/{fam}.wrong-value-reaches-operators'
+        case(the_id, (slot, a_src, size, tuple(called)), same,
+             lambda: f'operator called at steps {called} only: at step {s} the schedule {ssrc} denotes '
+             f'{refs[s]!r}; with the schedule: {_show_run(ra, pop)}; with {refs[s]!r}: {_show_run(rb, pop)}',
+             lambda: HDR + pop_source('flat', pop) + f'a = {a_src}\nb = {b_src}   # value of the schedule at step {s}\n'
+             f'for s in {called}:\n  ra = run_op(a, pop, s)\nrb = run_op(b, pop, {s})\n'
+             'assert same_run(ra, rb), (ra, rb)')
 
     for li, (slot, tmpl, accepts, okind) in enumerate(slots):
       context = slot.startswith('step-reaches/')
       dna = okind.startswith('dna')
       if okind.startswith('selector'):
-        pass
+        # (quick: First, Top and a rotating half of the other selector slots)
+        if quick and not is_probe and li >= 2 and (li + ci) % 2:
+          continue
       elif okind == 'list' and not context:
         if not (first_of_family or is_probe) and quick:
           continue
       elif okind == 'evolution':
-        if sc['stateful'] or is_random or (fam, kind) in evo_done:
+        if sc['stateful'] or is_random or anchor or (fam, kind) in evo_done:
           continue
-        if not (is_probe or not quick):
+        if quick and ssrc not in probes['evolution']:
           continue
-      elif not (is_probe or (first_of_family and not quick)):
+      elif not (ssrc in probes['context' if context else 'dna'] or (first_of_family and not quick)):
         continue
+      pure = 'seed=' not in tmpl and not dna and okind != 'evolution'
 
       def cid(check):
         if sched_ok:
@@ -2098,7 +2139,7 @@ def drv_schedules(tier, seed):
         size = len(pop) if pop is not None else 0
         psrc = pop_source(name, pop)
         key0 = (slot, a_src, name, size)
-        check_inputs = pop is not None and (is_probe or first_of_family)
+        check_inputs = pop is not None and (is_probe or not quick)
         # -------------------------------------------------------------- random
         if is_random:
           if not okind.startswith('selector'):
@@ -2130,13 +2171,11 @@ def drv_schedules(tier, seed):
           continue
         # ----------------------------------------------------------- evolution
         if okind == 'evolution':
-          n_evo = 10
+          n_evo = 8
           if not all(accepts(x, size) for x in refs[:n_evo + 2]):
             continue
           evo_done.add((fam, kind))
           S = space(name)
-          if anchor:
-            continue     # (no literal counterpart of a whole run)
           b_src = tmpl.format(n=table)
           ta, tb = evo_trace(a_src, S, n_evo), evo_trace(b_src, S, n_evo)
           case(cid('same-as-denoted-values'), key0, ta == tb and isinstance(ta, list),
@@ -2164,7 +2203,7 @@ def drv_schedules(tier, seed):
         if anchor:
           # A python function as schedule vs the literal value, fresh operators.
           ok_steps = [s for s in steps if accepts(refs[s], size)]
-          ok_steps = ok_steps[:2] + ok_steps[4:5] if quick else ok_steps
+          ok_steps = ok_steps[1:2] + ok_steps[3:4] if quick else ok_steps
           for s in ok_steps:
             b_src = tmpl.format(n=repr(refs[s]))
             pairs.append((s, run_op(a_src, pop, s), run_op(b_src, pop, s), b_src))
@@ -2175,16 +2214,27 @@ def drv_schedules(tier, seed):
           # seeded operators may carry state from call to call).
           if sc['stateful'] and not all(accepts(x, size) for x in refs):
             continue
-          b_src = tmpl.format(n=table)
-          a_op, b_op = outcome(make, a_src), outcome(make, b_src)
+          a_op = outcome(make, a_src)
+          if not pure:
+            b_src = tmpl.format(n=table)
+            b_op = outcome(make, b_src)
           use = steps if (not quick or okind.startswith('selector') or sc['stateful']) else steps[:3] + steps[4::5]
-          if dna and quick and not sc['stateful']:
-            use = steps[1:3] + steps[4:5]
+          if dna and quick:
+            use = steps[:4] if sc['stateful'] else steps[1:3]
           for s in use:
             if not accepts(refs[s], size):
               continue
             ra = run_op(a_op[1], pop, s) if a_op[0] == 'ok' else ('exc', a_op[1].__name__, '')
-            rb = run_op(b_op[1], pop, s) if b_op[0] == 'ok' else ('exc', b_op[1].__name__, '')
+            if pure:
+              # (an unseeded operator with a literal parameter is a function
+              # of its input: one run per value)
+              b_src = tmpl.format(n=repr(refs[s]))
+              lk = (li, b_src, name, size)
+              if lk not in literal_runs:
+                literal_runs[lk] = run_op(b_src, pop, s)
+              rb = literal_runs[lk]
+            else:
+              rb = run_op(b_op[1], pop, s) if b_op[0] == 'ok' else ('exc', b_op[1].__name__, '')
             pairs.append((s, ra, rb, b_src))
           seq = True
         d = fz.diff() if fz else None
@@ -2196,7 +2246,12 @@ def drv_schedules(tier, seed):
           key = key0 + (s,)
           v = refs[s]
           called = [p[0] for p in pairs if p[0] <= s]
-          if seq:
+          if seq and pure:
+            wit = lambda s=s, b_src=b_src, called=called: (
+                HDR + psrc + f'a = {a_src}\nb = {b_src}   # value of the schedule at step {s}\n'
+                f'for s in {called}:\n  ra = run_op(a, pop, s)\n'
+                f'rb = run_op(b, pop, {s})\nassert same_run(ra, rb, {dna}), (ra, rb)')
+          elif seq:
             wit = lambda s=s, b_src=b_src, called=called: (
                 HDR + psrc + f'a = {a_src}\nb = {b_src}\nfor s in {called}:\n'
                 '  ra, rb = run_op(a, pop, s), run_op(b, pop, s)\n'
